@@ -437,3 +437,12 @@ func pinnedBare(f *ssa.Function) string {
 	}
 	return n
 }
+
+// sameResult: f returns exactly what g returns (a constructor that delegates to another constructor
+// of the package is evaluated through).
+func sameResult(f, g *ssa.Function) bool {
+	if f == nil || g == nil || f == g {
+		return false
+	}
+	return types.Identical(f.Signature.Results(), g.Signature.Results()) && f.Signature.Results().Len() > 0
+}
